@@ -104,6 +104,7 @@ inductive Entry where
   | refund (prev : Nat)
   | addLog (tx : Nat)
   | touch (a : Addr)
+  | addPreimage (p : Nat)
   | tokenBalance (a : Addr) (t : Tok) (prev : Option Int)
 
 def Entry.dirtied : Entry → Option Addr
@@ -118,6 +119,7 @@ def Entry.dirtied : Entry → Option Addr
   | .refund _ => none
   | .addLog _ => none
   | .touch a => some a
+  | .addPreimage _ => none
   | .tokenBalance a _ _ => some a
 
 structure Log where
@@ -135,13 +137,14 @@ structure State where
   txIndex : Nat
   logs : Nat → List Log
   logSize : Nat
+  preimages : Nat → Option Bytes   -- SHA3 preimages recorded by the VM (keys from a fixed universe)
   journal : List Entry             -- head = most recent entry
   revs : List (Nat × Nat)          -- validRevisions (id, journalIndex), head = most recent
   nextRev : Nat
 
 def State.empty : State :=
   { objs := fun _ => none, objsDirty := fun _ => false, trie := fun _ => none, refund := 0, thash := 0, txIndex := 0,
-    logs := fun _ => [], logSize := 0, journal := [], revs := [], nextRev := 0 }
+    logs := fun _ => [], logSize := 0, preimages := fun _ => none, journal := [], revs := [], nextRev := 0 }
 
 /-- heap of shared token maps + one state -/
 structure Ctx where
@@ -229,6 +232,7 @@ def undo (e : Entry) (c : Ctx) : Ctx :=
   | .refund prev => { c with st := { c.st with refund := prev } }
   | .addLog tx => { c with st := { c.st with logs := upd c.st.logs tx (c.st.logs tx).dropLast, logSize := c.st.logSize - 1 } }
   | .touch _ => c
+  | .addPreimage p => { c with st := { c.st with preimages := upd c.st.preimages p none } }
   | .tokenBalance a t prev => modTok c a t prev
 
 /-- `journal.revert(statedb, n)`: undo entries until the journal has length `n` -/
@@ -303,6 +307,8 @@ inductive Op where
   | addRefund (g : Nat)
   | subRefund (g : Nat)
   | prepare (x : Nat) (i : Nat)
+  | setCredits (a : Addr) (n : Nat)
+  | addPreimage (p : Nat) (d : Bytes)
 
 /-- one mutator of `StateDB` (journal entries are pushed before each mutation, as in the code) -/
 def applyOp (cfg : Cfg) (c : Ctx) : Op → Ctx
@@ -358,6 +364,14 @@ def applyOp (cfg : Cfg) (c : Ctx) : Op → Ctx
     -- the entry is appended before the `panic("Refund counter below zero")`
     { c with st := { s with journal := .refund s.refund :: s.journal, refund := if g > s.refund then s.refund else s.refund - g } }
   | .prepare x i => { c with st := { c.st with thash := x, txIndex := i } }
+  | .setCredits a n =>
+    let (c1, o) := ensure c a
+    (setCredits c1 a o n).1
+  | .addPreimage p d =>
+    let s := c.st
+    match s.preimages p with
+    | some _ => c
+    | none => { c with st := { s with journal := .addPreimage p :: s.journal, preimages := upd s.preimages p (some d) } }
 
 /-- `Snapshot()` -/
 def snapshot (c : Ctx) : Ctx × Nat :=
@@ -445,7 +459,8 @@ def deepCopy (cfg : Cfg) (heap : Ref → TokMap) (nextRef : Nat) (o : Obj) : (Re
 
 /-- `StateDB.Copy()`: returns the context of the original (its private maps may have become shared cells) and the copy's state -/
 def copy (cfg : Cfg) (c : Ctx) : Ctx × State :=
-  let init : Ctx × State := (c, { State.empty with trie := c.st.trie, refund := c.st.refund, logs := c.st.logs, logSize := c.st.logSize })
+  let init : Ctx × State := (c, { State.empty with trie := c.st.trie, refund := c.st.refund, logs := c.st.logs, logSize := c.st.logSize,
+                                                   preimages := c.st.preimages })
   addrU.foldl (fun (acc : Ctx × State) a =>
     let (c1, n) := acc
     if isDirtyJ c.st a || c.st.objsDirty a then
@@ -456,6 +471,12 @@ def copy (cfg : Cfg) (c : Ctx) : Ctx × State :=
         (putObj { c1 with heap := h, nextRef := nr } a o1,
          { n with objs := upd n.objs a (some o2), objsDirty := upd n.objsDirty a true })
     else acc) init
+
+/-- `Reset(root)`: everything ephemeral is dropped, the trie is reopened at `root`; `nextRevisionId` keeps running -/
+def resetTo (t : Addr → Option Account) (s : State) : State := { State.empty with trie := t, nextRev := s.nextRev }
+
+/-- `state.New(root, db)`: a new StateDB over the trie content at `root` -/
+def openAt (t : Addr → Option Account) : State := { State.empty with trie := t }
 
 /-! ### observables: the getters named in the property -/
 
@@ -478,9 +499,11 @@ structure Obs where
   refund : Nat
   logs : Nat → List Log
   logSize : Nat
+  preimages : Nat → Option Bytes
 
 def obs (c : Ctx) : Obs :=
-  { acct := fun a => (peek c.st a).map (obsObj c.heap), refund := c.st.refund, logs := c.st.logs, logSize := c.st.logSize }
+  { acct := fun a => (peek c.st a).map (obsObj c.heap), refund := c.st.refund, logs := c.st.logs, logSize := c.st.logSize,
+    preimages := c.st.preimages }
 
 /-- secondary observable: the content the account trie commits to (root equality = content equality, hash injectivity assumed) -/
 def rootContent (s : State) : List (Option (Nat × Nat × Int × List (Option Int) × List (Option Bytes) × Bytes)) :=
@@ -521,5 +544,46 @@ def JB.revertAux (n : Nat) : List Entry → (Addr → Option Int) → JB
     else JB.revertAux n rest (JB.dropDirty d e)
 
 def JB.revert (j : JB) (n : Nat) : JB := JB.revertAux n j.entries j.dirties
+
+/-! ### the undo log of the flat key-value backend (state/keyvalue.go: `wrappedTrie.Commit`, `SaveWAL`, `rebuildLastState`,
+`NewKeyValueDBWithCache`, `CanRollBackOneBlock`)
+
+With `isTrie = false` and `cache > 0` the state is ONE flat database.  `StateDB.Commit(height)` first truncates the undo log and
+stores `kvh := height` (`SaveWAL`), then every trie commit appends, for each updated key, the value the database holds NOW
+(empty = absent) and only then writes the batch.  Opening the backend at block-store height `h` replays the log when
+`kvh = h + 1` (the state is one block ahead: crash between the two stores, or `RollBackOneBlock`), does nothing when `kvh = h`
+or `kvh = 0`, and panics otherwise.  An update with an empty value is a delete; the database never holds an empty value. -/
+
+abbrev Flat := Nat → Option Bytes
+
+structure KvStore where
+  db : Flat
+  wal : List (Nat × Bytes)      -- (key, old value or [] for "was absent"), in append order
+  kvh : Nat
+
+def KvStore.fresh : KvStore := { db := fun _ => none, wal := [], kvh := 0 }
+
+/-- one record of `wrappedTrie.Commit`: remember the old value, then apply the update (`len(v) == 0` deletes) -/
+def kvApply (s : KvStore) (u : Nat × Bytes) : KvStore :=
+  { s with wal := s.wal ++ [(u.1, (s.db u.1).getD [])]
+           db := upd s.db u.1 (if u.2.isEmpty then none else some u.2) }
+
+/-- `StateDB.Commit(_, height)` on the flat backend: `SaveWAL(height)`, then the updates of all tries -/
+def kvCommit (s : KvStore) (height : Nat) (ups : List (Nat × Bytes)) : KvStore :=
+  ups.foldl kvApply { s with wal := [], kvh := height }
+
+/-- `rebuildLastState`: `n > 0` restores the old value, otherwise deletes the key -/
+def kvRebuild (db : Flat) (wal : List (Nat × Bytes)) : Flat :=
+  wal.foldl (fun d r => upd d r.1 (if r.2.isEmpty then none else some r.2)) db
+
+/-- `NewKeyValueDBWithCache(db, cache > 0, false, height)`; `none` = the panic "kvStateHeight is …, blockStoreHeight is …" -/
+def kvOpen (s : KvStore) (height : Nat) : Option KvStore :=
+  if s.kvh = height then some s
+  else if s.kvh = height + 1 then some { s with db := kvRebuild s.db s.wal }
+  else if s.kvh = 0 then some s
+  else none
+
+/-- `CanRollBackOneBlock` when the undo-log file exists -/
+def kvCanRollBack (s : KvStore) (height : Nat) : Bool := decide (height > 0) && decide (s.kvh = height)
 
 end Model.StateDB
